@@ -148,8 +148,26 @@ def run_case(case):
             end = tzp.localize(end.replace(tzinfo=None), "Europe/Berlin")
     exp = expectation(start, end, dur, specs)
     fails = []
+    feed = case[8] if len(case) > 8 else "whole"
+    alarm_objs = comp.walk("VALARM")
     try:
-        times = Alarms(comp).times
+        if feed == "whole":
+            times = Alarms(comp).times
+        else:
+            # the same alarms reach the Alarms object in another order: what it computes depends on what it holds when
+            # `times` is asked, not on what it held when the parent arrived
+            late = alarm_objs[1:] if feed == "first-with-parent" else alarm_objs
+            comp.subcomponents = [x for x in comp.subcomponents if not any(x is l_ for l_ in late)]
+            if feed == "alarms-then-parent":
+                A = Alarms()
+                for al in late:
+                    A.add_alarm(al)
+                A.add_component(comp)
+            else:
+                A = Alarms(comp)
+                for i, al in enumerate(late):
+                    A.add_alarm(al) if i % 2 == 0 else A.add_component(al)
+            times = A.times
         obs = ("times", times)
     except DOCUMENTED as e:
         obs = ("error", type(e).__name__)
@@ -165,7 +183,6 @@ def run_case(case):
         if exp[0] != "either":
             fails.append(fail("error-although-information-is-complete", case, [render(x) for x in exp[1]], obs[1]))
     else:
-        alarm_objs = comp.walk("VALARM")
         want = exp[1]
         per = [[t.trigger for t in obs[1] if t.alarm is a] for a in alarm_objs]
         if len(per) != len(want) or any(len(p) != len(w) or not all(M.same_time(x, y) for x, y in zip(p, w)) for p, w in zip(per, want)):
@@ -205,7 +222,7 @@ def run(ctx):
     ctx.rule = ("E-enum: {VEVENT,VTODO} x 8 start kinds x 5 end kinds (incl. a zero DURATION) x all single alarms TRIGGER(8) x RELATED(5) x "
                 "(REPEAT,DURATION)(8, incl. a zero DURATION) x {API-built, parsed, parsed with explicit plus signs on durations} x {zoneinfo, pytz}; plus all ordered pairs over a reduced menu of "
                 f"{len(REDUCED)} alarm shapes" + ("" if ctx.quick else " and all triples over 8 shapes") +
-                ". non-trivial = at least one alarm has a TRIGGER.")
+                "; E-hist: the alarms of a component handed to the Alarms object after the parent, before it, or partly with it (add_alarm / add_component alternating): same times. non-trivial = at least one alarm has a TRIGGER.")
     ctx.bounds = {"starts": STARTS, "ends": ENDS, "triggers": TRIGGERS, "related": [str(r) for r in RELATED],
                   "repeat_duration": [str(x) for x in REPDUR], "pairs_menu": len(REDUCED)}
     ctx.assumptions += ["'plus' is the provider-native addition (wall-clock for zoneinfo, absolute/normalize for pytz)",
@@ -239,3 +256,18 @@ def run(ctx):
                                 yield ("c", provider, path, cname, sk, ek, ((t, r, rd),), True)
 
     ctx.explore("components x alarms", gen, run_case)
+
+    def gen_feed():
+        for provider in env.PROVIDERS:
+            for cname in ("VEVENT", "VTODO"):
+                for sk in STARTS:
+                    for ek in ENDS:
+                        for feed in ("parent-then-alarms", "alarms-then-parent", "first-with-parent"):
+                            for shape in REDUCED:
+                                yield ("c", provider, "api", cname, sk, ek, (shape,), False, feed)
+                            for a, b in itertools.product(REDUCED[::3], repeat=2):
+                                yield ("c", provider, "api", cname, sk, ek, (a, b), False, feed)
+                            for tr in itertools.product(REDUCED[1::6], repeat=3):
+                                yield ("c", provider, "api", cname, sk, ek, tr, False, feed)
+
+    ctx.explore("feed orders (alarms added before / after / partly with the parent)", gen_feed, run_case)
